@@ -66,11 +66,20 @@ mount --bind {self.pkgcopy} {r}/scripts
 mount -o remount,ro,bind {r}/scripts 2>/dev/null || true
 exec chroot {r} /usr/bin/env -i PATH=/stubs/bin:/usr/bin:/bin HOME=/home/atlas MON_LOG=/log RUN_ID={run_id} FAIL='{fail}' {extra_env} /bin/bash -c 'cd /work && exec /scripts/runner.sh {qargs.replace("'", "'\\''")}'
 """
-        try:
-            p = subprocess.run(["unshare", "-m", "bash", "-c", script], capture_output=True, text=True, timeout=timeout, errors="replace")
-            rc, out, err = p.returncode, p.stdout, p.stderr
-        except subprocess.TimeoutExpired:
-            rc, out, err = -999, "", "TIMEOUT"
+        for attempt in range(5):
+            try:
+                p = subprocess.run(["unshare", "-m", "bash", "-c", script], capture_output=True, text=True, timeout=timeout, errors="replace")
+                rc, out, err = p.returncode, p.stdout, p.stderr
+            except subprocess.TimeoutExpired:
+                rc, out, err = -999, "", "TIMEOUT"
+            # ETXTBSY: a process forked by ANOTHER harness thread while this container's copy of runner.sh was being written still holds
+            # the file open for writing - the script never started; an artefact of the harness's parallelism, not an outcome
+            if rc == 126 and "Text file busy" in err:
+                time.sleep(0.3 * (attempt + 1))
+                continue
+            break
+        if rc == 126 and "Text file busy" in err:
+            rc, err = -999, "INFRASTRUCTURE: runner.sh could not be started (ETXTBSY) " + err   # inconclusive, never a verdict
         log = []
         lp = r / "log" / "commands.log"
         if lp.exists():
